@@ -1,8 +1,165 @@
 import CM.Lib.Wire
-/-! Driver handler for C14 (stub: not built yet). -/
-namespace CM.Drv.C14
-open CM.Wire
+import CM.Model.OCSP
+/-!
+Driver handler for C14.
 
-def handle (_args _impl : List String) : String := bad
+`staple <via> <disabled> <persisted> <responder> <issuerInChain> <nb> <na> <now> <storeFails>`
+   `=> <ocsp set> <stapled> <stored staple afterwards> <requests> <err|-> <cached|->`
+`maint <managed> <expired> <entry ocsp> <entry staple> <disabled> <persisted> <responder> <issuerInChain>`
+   `<nb> <na> <now> <storeFails> <stillCached> <renew ok|fail|giveup>`
+   `=> <after> <stored staple afterwards> <requests> <issuer called 0|1>`
+A response is `<g|r|u>:<serial 0|1>:<signature 0|1>:<thisUpdate>:<nextUpdate|->:<responder NotAfter|->`;
+persisted `a|c|<resp>`; responder `ns|oe|ni|te|g|<resp>`; `-` = none.
+-/
+namespace CM.Drv.C14
+open CM.Wire CM.OCSP
+
+def optInt (s : String) : Option (Option Int) :=
+  if s = "-" then some none else (s.toInt?).map some
+
+def decResp (t : String) : Option Resp :=
+  match t.splitOn ":" with
+  | [st, ser, sig, tu, nu, rna] =>
+    let status : Option Status := if st = "g" then some .good else if st = "r" then some .revoked
+      else if st = "u" then some .unknown else none
+    match status, tu.toInt?, optInt nu, optInt rna with
+    | some status, some tu, some nu, some rna =>
+      some { status := status, serialMatches := ser = "1", signedByIssuer := sig = "1", thisUpdate := tu
+             nextUpdate := nu, responderNotAfter := rna }
+    | _, _, _, _ => none
+  | _ => none
+
+def showOptInt : Option Int → String
+  | none => "-"
+  | some n => toString n
+
+def showResp (r : Resp) : String :=
+  (match r.status with | .good => "g" | .revoked => "r" | .unknown => "u") ++ ":" ++
+  (if r.serialMatches then "1" else "0") ++ ":" ++ (if r.signedByIssuer then "1" else "0") ++ ":" ++
+  toString r.thisUpdate ++ ":" ++ showOptInt r.nextUpdate ++ ":" ++ showOptInt r.responderNotAfter
+
+def showOptResp : Option Resp → String
+  | none => "-"
+  | some r => showResp r
+
+def decOptResp (t : String) : Option (Option Resp) :=
+  if t = "-" then some none else (decResp t).map some
+
+def decPersisted (t : String) : Option Persisted :=
+  if t = "a" then some .absent else if t = "c" then some .corrupt else (decResp t).map .parsed
+
+def showPersisted : Persisted → String
+  | .absent => "a" | .corrupt => "c" | .parsed r => showResp r
+
+def decResponder (t : String) : Option Responder :=
+  if t = "ns" then some .noServer else if t = "oe" then some .overrideEmpty
+  else if t = "ni" then some .noIssuer else if t = "te" then some .transportErr
+  else if t = "g" then some .garbage else (decResp t).map .answer
+
+def b01 (b : Bool) : String := if b then "1" else "0"
+
+/-- the stored staple after the call -/
+def storedAfter (i : StapleIn) (o : StapleOut) : Persisted :=
+  match o.stapled with
+  | some (.responder, r) => if o.stored && !i.storeFails then .parsed r else (if o.deleted then .absent else i.persisted)
+  | _ => if o.deleted then .absent else i.persisted
+
+/-! ### the executable specification: judges a response the implementation attached -/
+
+/-- is attaching `r` at `i.now` allowed by the property? `fromStore`: it is the stored staple -/
+def stapleVerdict (i : StapleIn) (r : Resp) : String :=
+  if r.status ≠ .good then "bad:stapled-not-good"
+  else if !r.serialMatches then "bad:stapled-other-serial"
+  else if !r.signedByIssuer && !(i.persisted = .parsed r && !i.issuerInChain) then "bad:stapled-bad-signature"
+  else if decide (i.now < r.thisUpdate) then "bad:stapled-not-yet-valid"
+  else if (match r.nextUpdate with | some nu => decide (nu < i.now) | none => false) then "bad:stapled-expired"
+  else if (match r.nextUpdate with | some nu => decide (nu > expiresAt i.notAfter) | none => false) then "bad:stapled-past-cert-expiry"
+  else "ok"
+
+/-- a verified, fresh, current stored staple must be reused without a request -/
+def mustReuse (i : StapleIn) : Bool :=
+  !i.disabled && (match i.persisted with
+    | .parsed r => storedVerifies i r && fresh i.now r && current i.now r
+    | _ => false)
+
+def stapleIn (dis pers resp iic nb na now sf : String) : Option StapleIn :=
+  match decPersisted pers, decResponder resp, nb.toInt?, na.toInt?, now.toInt? with
+  | some p, some r, some nb, some na, some now =>
+    some { disabled := dis = "1", persisted := p, responder := r, issuerInChain := iic = "1"
+           notBefore := nb, notAfter := na, now := now, storeFails := sf = "1" }
+  | _, _, _, _, _ => none
+
+def respTag (i : StapleIn) : String :=
+  (match i.persisted with
+    | .absent => "pa" | .corrupt => "pc"
+    | .parsed r => "p" ++ (if storedVerifies i r then (if fresh i.now r then "F" else "S") ++ (if current i.now r then "" else "x") else "V")) ++
+  (match i.responder with
+    | .noServer => "+ns" | .overrideEmpty => "+oe" | .noIssuer => "+ni" | .transportErr => "+te" | .garbage => "+g"
+    | .answer r => "+" ++ (match r.status with | .good => "g" | .revoked => "r" | .unknown => "u") ++
+        (if answerVerifies r then "" else "V") ++ (if current i.now r then "" else "x") ++ (if pastExpiry i r then "E" else ""))
+
+def handle (args impl : List String) : String :=
+  match args with
+  | ["staple", via, dis, pers, resp, iic, nb, na, now, sf] =>
+    match stapleIn dis pers resp iic nb na now sf with
+    | none => bad
+    | some i =>
+      let o := staple i
+      let direct := via = "direct"
+      let model := showOptResp o.ocspSet ++ " " ++ showOptResp (o.stapled.map (·.2)) ++ " " ++
+        showPersisted (storedAfter i o) ++ " " ++ (if o.contacted then "1" else "0") ++ " " ++
+        (if direct then b01 o.err else "-") ++ " " ++ (if direct then "-" else "1")
+      let spec := match impl with
+        | [_, st, _, req, _, cached] =>
+          match decOptResp st with
+          | none => "bad-op"
+          | some st =>
+            let v := match st with
+              | some r => stapleVerdict i r
+              | none => "ok"
+            if v ≠ "ok" then v
+            else if cached = "0" then "bad:certificate-not-cached"
+            else if mustReuse i && req ≠ "0" then "bad:responder-contacted-despite-fresh-staple"
+            else "ok"
+        | _ => "-"
+      reply model spec (via ++ ":" ++ respTag i ++ (if o.stapled.isSome then "=S" else "") ++ (if o.err then "!" else ""))
+  | ["maint", mg, ex, eo, es, dis, pers, resp, iic, nb, na, now, sf, sc, rn] =>
+    match stapleIn dis pers resp iic nb na now sf, decOptResp eo, decOptResp es with
+    | some i, some eo, some es =>
+      let e : Entry := { leafNil := false, expired := ex = "1", managed := mg = "1", hasNames := true, ocsp := eo, staple := es }
+      let renew : Renew := if rn = "ok" then .ok else if rn = "giveup" then .gaveUp else .fail
+      let m := maintain e i (sc = "1") renew
+      let showAfter : After → String
+        | .kept a b => "kept/" ++ showOptResp a ++ "/" ++ showOptResp b
+        | .replaced => "replaced"
+        | .removed => "removed"
+      let model := showAfter m.after ++ " " ++ showPersisted (storedAfter i m.out) ++ " " ++
+        (if m.out.contacted then "1" else "0") ++ " " ++ b01 m.forced
+      -- the certificate has been REPORTED Revoked to the implementation: its attached response
+      -- already is, or the implementation asked the responder during this pass (observed) and the
+      -- answer is a Revoked response that is valid for this certificate now
+      let reported (req : String) : Bool := e.managed && !e.expired &&
+        ((match e.ocsp with | some r => decide (r.status = .revoked) | none => false) ||
+         (req != "0" && !i.disabled && (match i.responder with
+            | .answer r => decide (r.status = .revoked) && answerVerifies r && current i.now r && !pastExpiry i r
+            | _ => false)))
+      let spec := match impl with
+        | [after, _, req, _] =>
+          if reported req && after ≠ "replaced" && after ≠ "removed" then "bad:revoked-still-served"
+          else if reported req && renew = .ok && after ≠ "replaced" then "bad:revoked-not-replaced"
+          else match after.splitOn "/" with
+            | ["kept", _, st] =>
+              (match decOptResp st with
+              | none => "bad-op"
+              | some none => "ok"
+              | some (some r) => if some r = e.staple then "ok" else stapleVerdict i r)
+            | _ => if !e.managed && after ≠ "" && (after = "replaced" || after = "removed") then "bad:unmanaged-entry-dropped" else "ok"
+        | _ => "-"
+      let tag := (match m.decision with | .skip => "skip" | .refresh => "refresh" | .forceRenew => "force") ++ ":" ++
+        respTag i ++ (match m.after with | .kept _ _ => "" | .replaced => "=replaced" | .removed => "=removed") ++
+        (if m.forced then "!" else "")
+      reply model spec (if m.decision = .skip then "" else tag)
+    | _, _, _ => bad
+  | _ => bad
 
 end CM.Drv.C14
